@@ -36,6 +36,7 @@ Fixpoint sval (e : env) (c : sc) : T :=
   match c with
   | SA => e_a e | SB => e_b e
   | SAdd p q => sval e p + sval e q
+  | SNeg p => - sval e p
   | SK k => of_Z k
   end.
 
